@@ -59,6 +59,8 @@ pub fn spaces(tier: Tier) -> Vec<Space<'static>> {
             }
         }
     }));
+    let nv = crate::checks::scale::variants().len() as u64;
+    sp.push(Space::new("scale-pairs (big documents and near-copies)", nv, |i, acc| crate::checks::scale::relation_row(i as usize, acc, 1)));
     let d2 = d.clone();
     sp.push(Space::new("laws-on-own-matrix", 1, move |_, acc| {
         use rayon::prelude::*;
